@@ -15,8 +15,8 @@
 //! ```
 
 use super::swift_utils::{
-    format_swift_amount_for_currency, parse_amount_with_currency, parse_currency_non_commodity,
-    parse_date_yymmdd,
+    ensure_ascii, format_swift_amount_for_currency, parse_amount_with_currency,
+    parse_currency_non_commodity, parse_date_yymmdd,
 };
 use crate::errors::ParseError;
 use crate::traits::SwiftField;
@@ -45,6 +45,7 @@ impl SwiftField for Field32A {
     where
         Self: Sized,
     {
+        ensure_ascii(input, "Field 32")?;
         // Field32A format: 6!n3!a15d (date + currency + amount)
         if input.len() < 10 {
             // Minimum: 6 digits date + 3 chars currency + 1 digit amount
@@ -114,6 +115,7 @@ impl SwiftField for Field32B {
     where
         Self: Sized,
     {
+        ensure_ascii(input, "Field 32")?;
         // Field32B format: 3!a15d (currency + amount)
         if input.len() < 4 {
             // Minimum: 3 chars currency + 1 digit amount
@@ -200,6 +202,7 @@ impl SwiftField for Field32C {
     where
         Self: Sized,
     {
+        ensure_ascii(input, "Field 32")?;
         // Same format as Field32A
         if input.len() < 10 {
             return Err(ParseError::InvalidFormat {
@@ -267,6 +270,7 @@ impl SwiftField for Field32D {
     where
         Self: Sized,
     {
+        ensure_ascii(input, "Field 32")?;
         // Same format as Field32A
         if input.len() < 10 {
             return Err(ParseError::InvalidFormat {
@@ -333,6 +337,7 @@ impl SwiftField for Field32 {
     where
         Self: Sized,
     {
+        ensure_ascii(input, "Field 32")?;
         // Try to determine variant based on content
         // If it starts with 6 digits (date), it's A, C, or D
         // Otherwise it's B (currency + amount only)
@@ -389,6 +394,7 @@ impl SwiftField for Field32AB {
     where
         Self: Sized,
     {
+        ensure_ascii(input, "Field 32")?;
         // Try parsing as Field32A first (has value date)
         if let Ok(field) = Field32A::parse(input) {
             return Ok(Field32AB::A(field));
@@ -430,6 +436,7 @@ impl SwiftField for Field32AmountCD {
     where
         Self: Sized,
     {
+        ensure_ascii(input, "Field 32")?;
         // Both C and D variants have the same format (date + currency + amount)
         // Try to parse as Field32C first (credit)
         if let Ok(field) = Field32C::parse(input) {
